@@ -72,6 +72,16 @@ def main():
                     ident = f"{tc.get('classname')}::{tc.get('name')}"
                     if not any(a in ident for a in ALWAYS_FAIL):
                         bad.append(ident)
+            # a failure outside the always-fail set is re-run alone: the scenario regression tests are load sensitive
+            still = []
+            for ident in bad:
+                name = ident.split("::")[-1].split("[")[0]
+                path = ident.split("::")[0].split(".Test")[0].replace(".", "/") + ".py"
+                rc2, out2 = sh(f"timeout 1200 /venv/bin/python -m pytest {path} -k {name} -p no:cacheprovider -o addopts='' -q", cwd=wt, env=env, timeout=1500)
+                if rc2 != 0:
+                    still.append(ident)
+            meta["suite_failures_first_pass"] = bad
+            bad = still
             meta["suite_new_failures"] = bad
             meta["ran"].append("full pinned suite in the patched worktree")
             os.remove(xml)
